@@ -38,17 +38,22 @@ BOUNDS_TEXT = ("boxes: 5 shapes (1 box x 1 pair, 1 x 2, 2 x 1 with the same key,
                "3), every split index of the stream (two deliveries); unrepresentable boxes: empty key, key of 3 "
                "> 2, value of 4 > 3, str key, str value, next to a representable pair; received length prefixes "
                "0..5 / 256.. at first-key, value and second-key position; Integer: every |n| < int; Boolean: both values and every "
-               "text of <= 5 bytes; String/Unicode: <= u ASCII characters; ListOf(Integer) and ListOf(String) of "
+               "text of <= 5 bytes; String/Unicode: <= u ASCII characters; Unicode over all of Unicode: first character "
+               "symbolic in each class (U+FEFF, ASCII, 2-octet, other 3-octet, astral) + <= 1 further character, plain, "
+               "as ListOf(Unicode) element and as AmpList field; ListOf(Integer) and ListOf(String) of "
                "<= 2 elements; AmpList of <= 2 dictionaries (Integer, Unicode)")
 OUTSIDE = ["Float, Decimal, DateTime, Path argument types (C-level float/decimal/strptime/filesystem parsing is "
            "opaque to the solver): that half of the property is NOT claimed",
-           "Unicode outside ASCII (the utf-8 codec is C code), Integer beyond the stated magnitude (decimal "
-           "rendering forks once per digit)",
+           "Unicode texts longer than 2 characters outside ASCII, lone surrogates (not encodable), Integer beyond the "
+           "stated magnitude (decimal rendering forks once per digit)",
            "symbolic key TEXT (dict hashing realises it): keys are concrete menu entries chosen symbolically",
            "the real limits 255 / 65535: scaled to 2 / 3 so that both sides of each limit are inside the bound; "
            "boxes with more than 2 pairs, more than 2 boxes, three or more deliveries",
            "TLS start / protocol switching paths of BinaryBoxProtocol"]
-ASSUMPTIONS = ["LBytes / struct / %d / int() shims reproduce bytes semantics (differentially tested on every run: "
+ASSUMPTIONS = ["the C codecs utf-8 (encode, decode) and utf-8-sig (decode) are replaced in the lifted code by pure-Python "
+               "ports registered in lbytes.CODECS, compared with the C codecs on every run (selftest: all classes, "
+               "a stride over all planes, BOM handling, malformed sequences); replay uses the C codecs",
+               "LBytes / struct / %d / int() shims reproduce bytes semantics (differentially tested on every run: "
                "selftest) and the lifted classes agree with the real ones on the concrete vectors",
                "transport and boxReceiver are recording fakes; twisted.python.compat.nativeString is replaced by "
                "LBytes.decode('ascii') for the (concrete) AmpList argument names"]
@@ -75,6 +80,118 @@ def _native(s):
         return s.decode("ascii")
     from twisted.python.compat import nativeString
     return nativeString(s)
+
+
+
+# ---- UTF-8 codecs in pure Python (the C codecs realise symbolic text) -----------------------------------
+# registered in lbytes.CODECS: str.encode("utf-8") of lifted code (encode_calls) and LBytes.decode("utf-8" /
+# "utf-8-sig") go through them; both are compared with the C codecs on every run (selftest).
+
+def _utf8_encode(text, errors="strict"):
+    out = []
+    for c in text:
+        o = ord(c)
+        if o < 0x80:
+            out.append(c)
+        elif o < 0x800:
+            out.append(chr(0xC0 + o // 64))
+            out.append(chr(0x80 + o % 64))
+        elif o < 0x10000:
+            if 0xD800 <= o <= 0xDFFF:
+                raise UnicodeEncodeError("utf-8", "?", 0, 1, "surrogates not allowed")
+            out.append(chr(0xE0 + o // 4096))
+            out.append(chr(0x80 + (o // 64) % 64))
+            out.append(chr(0x80 + o % 64))
+        else:
+            out.append(chr(0xF0 + o // 262144))
+            out.append(chr(0x80 + (o // 4096) % 64))
+            out.append(chr(0x80 + (o // 64) % 64))
+            out.append(chr(0x80 + o % 64))
+    return "".join(out)
+
+
+def _bad(i):
+    return UnicodeDecodeError("utf-8", b"?", i, i + 1, "invalid utf-8")
+
+
+def _cont(s, i):
+    if i >= len(s):
+        raise _bad(i)
+    o = ord(s[i])
+    if not (0x80 <= o <= 0xBF):
+        raise _bad(i)
+    return o - 0x80
+
+
+def _utf8_decode(s, errors="strict"):
+    """strict UTF-8 decoder over the latin-1 text of the bytes (RFC 3629: no overlongs, no surrogates,
+    nothing above U+10FFFF)"""
+    if errors != "strict":
+        return s.encode("latin-1").decode("utf-8", errors)
+    out = []
+    i = 0
+    n = len(s)
+    while i < n:
+        o = ord(s[i])
+        if o < 0x80:
+            out.append(s[i])
+            i += 1
+        elif o < 0xC2:
+            raise _bad(i)
+        elif o < 0xE0:
+            out.append(chr((o - 0xC0) * 64 + _cont(s, i + 1)))
+            i += 2
+        elif o < 0xF0:
+            v = (o - 0xE0) * 4096 + _cont(s, i + 1) * 64 + _cont(s, i + 2)
+            if v < 0x800 or 0xD800 <= v <= 0xDFFF:
+                raise _bad(i)
+            out.append(chr(v))
+            i += 3
+        elif o < 0xF5:
+            v = (o - 0xF0) * 262144 + _cont(s, i + 1) * 4096 + _cont(s, i + 2) * 64 + _cont(s, i + 3)
+            if v < 0x10000 or v > 0x10FFFF:
+                raise _bad(i)
+            out.append(chr(v))
+            i += 4
+        else:
+            raise _bad(i)
+    return "".join(out)
+
+
+def _utf8sig_decode(s, errors="strict"):
+    """the 'utf-8-sig' codec: ONE leading EF BB BF is dropped, then utf-8"""
+    if len(s) >= 3 and s[0] == "\xef" and s[1] == "\xbb" and s[2] == "\xbf":
+        return _utf8_decode("".join([s[i] for i in range(3, len(s))]), errors)
+    return _utf8_decode(s, errors)
+
+
+lbytes.CODECS["utf-8"] = lbytes.CODECS["utf8"] = (_utf8_encode, _utf8_decode)
+lbytes.CODECS["utf-8-sig"] = (None, _utf8sig_decode)
+
+
+def _ref_utf8(s):
+    """harness-side reference encoding, written independently of the shim (RFC 3629 table; payload
+    groups peeled off from the low end)"""
+    out = ""
+    for c in s:
+        o = ord(c)
+        if o <= 0x7F:
+            out = out + c
+            continue
+        if o <= 0x7FF:
+            k, lead = 1, 0xC0
+        elif o <= 0xFFFF:
+            k, lead = 2, 0xE0
+        else:
+            k, lead = 3, 0xF0
+        tail = ""
+        v = o
+        for _ in range(k):
+            q = v // 64
+            tail = chr(0x80 + (v - 64 * q)) + tail
+            v = q
+        out = out + chr(lead + v) + tail
+    return out
 
 
 _BASIC = lift.lift("twisted.protocols.basic",
@@ -411,16 +528,62 @@ def arg_text(u: str) -> bool:
     return isinstance(back, str) and back == u and t(enc) == u and t(raw) == u
 
 
-def arg_listof(xs: List[int], s1: str, s2: str, two: bool) -> bool:
+def arg_unicode(first: str, rest: str, wrap: int) -> bool:
+    """
+    pre: len(first) == 1 and len(rest) <= 1 and 0 <= wrap <= 2
+    pre: not (0xD800 <= ord(first) <= 0xDFFF) and all(not (0xD800 <= ord(c) <= 0xDFFF) for c in rest)
+    post: _
+    """
+    # Unicode argument over ALL of Unicode (classes split by shards: U+FEFF - which a BOM-stripping decoder
+    # would swallow -, ASCII, 2-octet, other 3-octet, astral): decoded text == original text, wire form ==
+    # UTF-8; plain (wrap 0), as ListOf(Unicode) element (1), as AmpList field (2)
+    _limits(255, 65535)
+    u = first + _fix(rest, 1) if len(rest) > 0 else first
+    want = _ref_utf8(u)
+    ua = L.Unicode()
+    w = _split_cases(2, wrap)
+    cover()
+    if w == 0:
+        enc = ua.toString(u)
+        back = ua.fromString(enc)
+        return isinstance(back, str) and len(back) == len(u) and back == u and t(enc) == want
+    if w == 1:
+        lu = L.ListOf(L.Unicode())
+        enc = lu.toString([u, "", u])
+        back = lu.fromString(enc)
+        if t(enc) != "\0" + chr(len(want)) + want + "\0\0" + "\0" + chr(len(want)) + want:
+            return False
+        return len(back) == 3 and back[0] == u and back[1] == "" and back[2] == u
+    al = L.AmpList([(b("t"), L.Unicode()), (b("n"), L.Integer())])
+    enc = al.toStringProto([{"t": u, "n": 7}], None)
+    back = al.fromStringProto(enc, None)
+    return len(back) == 1 and back[0]["t"] == u and len(back[0]["t"]) == len(u) and back[0]["n"] == 7
+
+
+def arg_listof(xs: List[int]) -> bool:
     """
     pre: len(xs) <= 2 and all(-1000 < x < 1000 for x in xs)
-    pre: len(s1) <= 2 and len(s2) <= 1 and all(ord(c) < 256 for c in s1 + s2)
     post: _
     """
     _limits(255, 65535)
     li = L.ListOf(L.Integer())
     enc = li.toString(list(xs))
     back = li.fromString(enc)
+    cover()
+    if not (isinstance(back, list) and len(back) == len(xs)):
+        return False
+    for i in range(len(xs)):
+        if back[i] != xs[i]:
+            return False
+    return t(li.toString([])) == "" and li.fromString(b("")) == []
+
+
+def arg_listof_str(s1: str, s2: str, two: bool) -> bool:
+    """
+    pre: len(s1) <= 2 and len(s2) <= 1 and all(ord(c) < 256 for c in s1 + s2)
+    post: _
+    """
+    _limits(255, 65535)
     s1 = _fix(s1, 2)
     s2 = _fix(s2, 1)
     strs = [s1, s2] if two else [s1]
@@ -428,23 +591,18 @@ def arg_listof(xs: List[int], s1: str, s2: str, two: bool) -> bool:
     enc2 = ls.toString([b(x) for x in strs])
     back2 = ls.fromString(enc2)
     cover()
-    if not (isinstance(back, list) and len(back) == len(xs)):
-        return False
-    for i in range(len(xs)):
-        if back[i] != xs[i]:
-            return False
     # framing of the string list: 16-bit length + element, in order
     exp = ""
     for x in strs:
         exp = exp + "\0" + chr(len(x)) + x
     if t(enc2) != exp:
         return False
-    return [t(x) for x in back2] == strs and t(li.toString([])) == "" and li.fromString(b("")) == []
+    return [t(x) for x in back2] == strs
 
 
 def arg_amplist(n: int, a1: int, u1: str, a2: int) -> bool:
     """
-    pre: 0 <= n <= 2 and -1000 < a1 < 1000 and -1000 < a2 < 1000
+    pre: 0 <= n <= 2 and -1000 < a1 < 1000 and -10 < a2 < 100
     pre: len(u1) <= 2 and all(ord(c) < 128 for c in u1)
     post: _
     """
@@ -473,15 +631,19 @@ def arg_amplist(n: int, a1: int, u1: str, a2: int) -> bool:
 
 HARNESSES = [
     H(roundtrip, shards=lambda tier: [("shape == %d" % s, "len(v1) == %d" % n) for s in range(5) for n in range(4)],
-      timeout={"quick": 60, "thorough": 600}),
+      timeout={"quick": 100, "thorough": 600}),
     H(partial_box, timeout={"quick": 60, "thorough": 300}),
     H(refuse, shards=[("kind == %d" % k,) for k in range(5)], timeout={"quick": 60, "thorough": 300}),
     H(recv_limits, shards=[("pos == %d" % i,) for i in range(3)], timeout={"quick": 60, "thorough": 300}),
     H(arg_integer, shards=[("n >= 0",), ("n < 0",)], timeout={"quick": 60, "thorough": 600}),
     H(arg_boolean, timeout={"quick": 60, "thorough": 300}),
     H(arg_text, timeout={"quick": 60, "thorough": 300}),
-    H(arg_listof, shards=[("len(xs) == %d" % n,) for n in range(3)], timeout={"quick": 60, "thorough": 300}),
-    H(arg_amplist, shards=[("n == %d" % n,) for n in range(3)], timeout={"quick": 60, "thorough": 300}),
+    H(arg_unicode, shards=[("ord(first) == 0xFEFF",), ("ord(first) < 0x80",), ("0x80 <= ord(first) < 0x800",),
+                           ("0x800 <= ord(first) < 0x10000", "ord(first) != 0xFEFF"), ("ord(first) >= 0x10000",)],
+      timeout={"quick": 100, "thorough": 300}),
+    H(arg_listof, shards=[("len(xs) == %d" % n,) for n in range(3)], timeout={"quick": 100, "thorough": 300}),
+    H(arg_listof_str, timeout={"quick": 100, "thorough": 300}),
+    H(arg_amplist, shards=[("n == %d" % n,) for n in range(3)], timeout={"quick": 100, "thorough": 300}),
 ]
 
 VECTORS = {
@@ -497,9 +659,12 @@ VECTORS = {
     "arg_integer": [(0,), (7,), (-1,), (10,), (999999,), (-999999,), (123456,), (-100,)],
     "arg_boolean": [(True, "True"), (False, "False"), (True, "true"), (False, ""), (True, "Falsf"), (False, "1")],
     "arg_text": [("",), ("abc",), ("\x00\x7f",)],
-    "arg_listof": [([], "", "", False), ([1, -20], "ab", "c", True), ([999], "\x00\xff", "", True),
-                   ([0, 0], "", "", True)],
-    "arg_amplist": [(0, 1, "x", 2), (1, -5, "hi", 0), (2, 999, "", -999), (2, 0, "a\x7f", 12)],
+    "arg_unicode": [("\ufeff", "", 0), ("\ufeff", "a", 1), ("\ufeff", "\ufeff", 2), ("a", "\ufeff", 0), ("\xe9", "", 1),
+                    ("\u20ac", "\x00", 2), ("\U0001f600", "\xff", 0), ("\uffff", "\U0010ffff", 1), ("\x00", "", 2),
+                    ("\u0800", "\u07ff", 0), ("\ufffe", "", 0)],
+    "arg_listof": [([],), ([1, -20],), ([999],), ([0, 0],)],
+    "arg_listof_str": [("", "", False), ("ab", "c", True), ("\x00\xff", "", True), ("", "", True)],
+    "arg_amplist": [(0, 1, "x", 2), (1, -5, "hi", 0), (2, 999, "", -9), (2, 0, "a\x7f", 12)],
 }
 
 
@@ -522,4 +687,46 @@ def selftest():
         assert (lbytes.LBytes("%d") % (-v,)) == (b"%d" % (-v,))
         n += 2
     assert isinstance(5, _IntName) and not isinstance("5", _IntName)
+    # the UTF-8 codec ports against the C codecs: class boundaries, a stride over all planes, BOM handling,
+    # and malformed input (must be refused exactly when the C codec refuses it)
+    cps = [0, 1, 0x7F, 0x80, 0x7FF, 0x800, 0xD7FF, 0xE000, 0xFEFF, 0xFFFE, 0xFFFF, 0x10000, 0x10FFFF]
+    cps += list(range(0, 0x110000, 263))
+    for cp in cps:
+        if 0xD800 <= cp <= 0xDFFF:
+            continue
+        for txt in (chr(cp), "a" + chr(cp), chr(cp) + "\ufeff", "\ufeff" + chr(cp)):
+            want = txt.encode("utf-8").decode("latin-1")
+            assert _utf8_encode(txt) == want and _ref_utf8(txt) == want, (cp, txt)
+            assert _utf8_decode(want) == txt
+            assert _utf8sig_decode(want) == txt.encode("utf-8").decode("utf-8-sig"), (cp, txt)
+            n += 4
+    import itertools
+    alpha = [0x00, 0x41, 0x7F, 0x80, 0xBF, 0xC0, 0xC1, 0xC2, 0xDF, 0xE0, 0xED, 0xEF, 0xF0, 0xF4, 0xF5, 0xFF, 0x9F, 0xA0,
+             0x8F, 0x90, 0xBB]
+    for k in (1, 2, 3):
+        for tup in itertools.product(alpha, repeat=k):
+            raw = bytes(tup)
+            for codec, fn in (("utf-8", _utf8_decode), ("utf-8-sig", _utf8sig_decode)):
+                try:
+                    want = raw.decode(codec)
+                except UnicodeDecodeError:
+                    want = "ERR"
+                try:
+                    got = fn(raw.decode("latin-1"))
+                except UnicodeDecodeError:
+                    got = "ERR"
+                assert want == got, (raw, codec, want, got)
+                n += 1
+    for raw in (b"\xf0\x90\x80\x80", b"\xf4\x8f\xbf\xbf", b"\xf4\x90\x80\x80", b"\xf0\x8f\xbf\xbf", b"\xef\xbb\xbf\xef\xbb\xbf"):
+        for codec, fn in (("utf-8", _utf8_decode), ("utf-8-sig", _utf8sig_decode)):
+            try:
+                want = raw.decode(codec)
+            except UnicodeDecodeError:
+                want = "ERR"
+            try:
+                got = fn(raw.decode("latin-1"))
+            except UnicodeDecodeError:
+                got = "ERR"
+            assert want == got, (raw, codec)
+            n += 1
     return n
